@@ -86,6 +86,20 @@ def build_net(n, order, stagger, seed):
     return net, info
 
 
+def join_violation(res, info, n, order, stagger, seed):
+    """A network that cannot even be built is reported by the property's first clause ("nodes that have joined")."""
+    rep = {'half': 'join', 'n': n, 'order': order, 'stagger': stagger, 'seed': seed}
+    if info['stuck']:
+        res.violation({'kind': 'join-never-quiesces', 'n': n},
+                      f'virtual time stuck at {info["vtime"]} s after {info["datagrams"]} datagrams: an exchange started '
+                      f'by the join never ends', rep)
+        return True
+    if not info['all_joined']:
+        res.violation({'kind': 'join-failed', 'n': n}, f'not every node joined within {info["vtime"]} s', rep)
+        return True
+    return False
+
+
 async def value_lookup(node, key, sink):
     from lbry.utils import aclosing
     async with aclosing(node.get_iterative_value_finder(key)) as finder:
@@ -402,15 +416,7 @@ def work_hit(item, res):
             res.tally('join_did_not_reach_fixed_point')
         if info['complete_tables']:
             res.witness('complete_routing_tables')
-        if info['stuck']:
-            res.violation({'kind': 'join-never-quiesces', 'n': n},
-                          f'virtual time stuck at {info["vtime"]} s after {info["datagrams"]} datagrams: an exchange '
-                          f'started by the join never ends',
-                          {'half': 'join', 'n': n, 'order': order, 'stagger': stagger, 'seed': seed})
-            return
-        if not info['all_joined']:
-            res.violation({'kind': 'join-failed', 'n': n}, f'not every node joined within {info["vtime"]} s',
-                          {'half': 'join', 'n': n, 'order': order, 'stagger': stagger, 'seed': seed})
+        if join_violation(res, info, n, order, stagger, seed):
             return
         base = {'half': 'hit', 'n': n, 'order': order, 'stagger': stagger, 'seed': seed}
         for ann, hname in item.get('cases', ()):
@@ -535,6 +541,8 @@ def work_paging(item, res):
     from vf.udpfab import fork_call
     net, info = build_net(2, [0, 1], 0.0, item['seed'])
     try:
+        if join_violation(res, info, 2, [0, 1], 0.0, item['seed']):
+            return
         for count in item['counts']:
             obs = fork_call(paging_case, net, count)
             res.count('executions')
@@ -844,8 +852,14 @@ def work_term(item, res):
     net, info = build_net(n, list(range(n)), 0.0, seed)
     try:
         res.count('networks_joined')
+        if join_violation(res, info, n, list(range(n)), 0.0, seed):
+            return
         if not term_prepare(net, searcher):
-            res.error(f'C12 term: preparatory announce failed n={n}')
+            # an honest, loss-free, joined network in which a plain announce stores nowhere: the hit half owns this
+            res.violation({'kind': 'announce-stored-nowhere', 'n': n, 'hash': 'near_boot', 'schedule': 'default'},
+                          'announce_blob (preparing the termination half) returned no storing node',
+                          {'half': 'hit', 'n': n, 'order': list(range(n)), 'stagger': 0.0, 'seed': seed,
+                           'ann': (searcher + 1) % n, 'hash': 'near_boot', 'choices': []})
             return
         base = {'half': 'term', 'n': n, 'searcher': searcher, 'seed': seed}
         wedged = set()
@@ -919,9 +933,13 @@ def dispatch(item, res):
 def plan(tier, seed):
     quick = tier == 'quick'
     items = []
-    hit_ns = [2, 3, 4, 5, 8] if quick else [2, 3, 4, 5, 8, 9, 12, 24, 40]
+    hit_ns = [2, 3, 4, 5, 8, 24] if quick else [2, 3, 4, 5, 8, 9, 12, 24, 40]
     for n in hit_ns:
         orders = join_orders(n)
+        if quick and n == 24:
+            # the smallest size at which PYTHONHASHSEED changes the join (set order in the routing task) and lookups
+            # need a second round: identity and reversed order only
+            orders = [orders[0], orders[-1]]
         staggers = [0.0, 3.0] if n <= 5 else [3.0]
         for oi, order in enumerate(orders):
             for stagger in staggers:
@@ -1046,7 +1064,7 @@ def run(ctx):
               'delay of each datagram as deviations. Distinct non-trivial = distinct (case, digest of the observed delivery '
               'sequence); states = distinct (case, choice prefix) nodes.'),
         exhaustive=True,
-        bounds={'hit_n': [2, 3, 4, 5, 8] if quick else [2, 3, 4, 5, 8, 9, 12, 24, 40],
+        bounds={'hit_n': [2, 3, 4, 5, 8, '24 (identity + reversed order only)'] if quick else [2, 3, 4, 5, 8, 9, 12, 24, 40],
                 'join_orders': 'all permutations n<=4; all rotations + reversed n<=12; every 2nd rotation + reversed n=24,40',
                 'announcers': 'all (n<=5) else {0, 1, n-1}', 'hashes': list(HASH_NAMES),
                 'deviation_cases': sorted({(d['n'], d['bound'], d['alphabet'],
@@ -1077,7 +1095,7 @@ def run(ctx):
                             'lookup_survived_rpc_timeouts', 'deviation_drop', 'deviation_late',
                             'expiry_probed_at_exact_boundary', 'hit_one_second_before_expiry',
                             'node_lookup_yielded_contacts', 'value_lookup_yielded_peers'] +
-                           ([] if quick else ['lookup_needed_2_rounds']),
+                           ['lookup_needed_2_rounds'],
     )
 
 
